@@ -10,6 +10,7 @@ RULE = ("X-mode-p cases: a random conformant call sequence (random presentation,
         "known-size master is open nothing is handed over; after flush/into_inner everything parses (EOF closing on) to the full document. "
         "In a third of the cases one call that must be rejected (the ten kinds of C19) is inserted at a random position: the same must hold "
         "for all other calls (a rejected call must not change when later bytes are handed over). "
+        "tight cases: a master started with size width 1 receives more than 126 bytes, its End is rejected (TagSizeError) and more children follow: the master is still open, so nothing may be handed over. "
         "ioerr cases (pairs of W lines): the same call sequence, with flush() calls between top-level tags, against an accepting destination and "
         "against one that fails (injected errors, Ok(0), short writes, Interrupted): no verdict other than Ok -> I/O error may change, byte counts never "
         "decrease, and after every call that returns Ok where the undisturbed run handed bytes over the failing destination holds exactly what the "
@@ -67,6 +68,17 @@ def generate(rng, tier):
             cases.append(Case(["W %s %s" % (sp.s(), ops_line(ops2, fin)),
                                "W %s %s %s" % (sp.s(), ops_line(ops2, fin), ",".join(script))], "ioerr",
                               {"ops": [(o, E.tag_str(t) if t else "") for o, t in ops2], "final": fin}))
+    # a known-size master whose End is REJECTED (width 1, more than 126 bytes of content: TagSizeError) stays open: the calls that follow
+    # must still be held back, whatever the outer masters are (mostly of unknown size, so that only this master holds the bytes)
+    for k in range(60 * TH if tier == "thorough" else 24):
+        sp = rng.choice(specs)
+        r = tight_case(rng, sp)
+        if r is None:
+            continue
+        ops, rej = r
+        meta = {"ops": [(o, E.tag_str(t)) for o, t in ops], "final": "", "rej": rej}
+        cases.append(Case(["X %s %s %s p" % (sp.s(), ops_line(ops, ""), E.cfg_str(eof=0)),
+                           "X %s %s %s f" % (sp.s(), ops_line(ops, ""), E.cfg_str(eof=1))], "tight", meta))
     # every stack of 1-3 masters left open, in every known / unknown-size / explicit-width combination, some content at each level, then
     # flush() or into_inner(): "close all open masters and deliver everything" (a deterministic family: not left to the random draw)
     import itertools
@@ -86,6 +98,39 @@ def generate(rng, tier):
                     cases.append(Case(["X %s %s %s p" % (bsp.s(), ops_line(ops, final), E.cfg_str(eof=0)),
                                        "X %s %s %s f" % (bsp.s(), ops_line(ops, final), E.cfg_str(eof=1))], "openstack", meta))
     return cases
+
+
+def tight_case(rng, sp):
+    """[outer masters, mostly unknown size] Start(m, width 1), > 126 bytes of content, End(m) (rejected), more children of m"""
+    for _ in range(30):
+        ops = []
+        ids = []
+        for _ in range(rng.choice([0, 1, 1, 2])):
+            cands = [i for i in E.allowed_children(sp, ids) if sp.get_type(i) == "M"]
+            if not cands:
+                break
+            m = rng.choice(cands)
+            ops.append((rng.choice(["u", "u", "u", "d"]), ("s", m)))
+            ids.append(m)
+            if rng.random() < 0.5:
+                kids = [i for i in E.allowed_children(sp, ids) if sp.get_type(i) == "B"]
+                if kids:
+                    ops.append(("d", ("b", kids[0], b"p" * rng.randint(0, 4))))
+        cands = [i for i in E.allowed_children(sp, ids) if sp.get_type(i) == "M"]
+        if not cands:
+            continue
+        m = rng.choice(cands)
+        fill = [i for i in E.allowed_children(sp, ids + [m]) if sp.get_type(i) == "B"]
+        if not fill:
+            continue
+        ops.append(("1", ("s", m)))
+        ops.append(("d", ("b", fill[0], b"q" * rng.choice([127, 130, 200]))))
+        rej = len(ops)
+        ops.append(("d", ("e", m)))
+        for _ in range(rng.randint(1, 3)):
+            ops.append(("d", ("b", fill[0], b"r" * rng.randint(0, 5))))
+        return ops, rej
+    return None
 
 
 def checkpoints(ops):
